@@ -152,6 +152,39 @@ theorem parseCond_inv (c : Cfg σ) {P} (hP : Stable c P) {pb : ParseBlockFn σ} 
   repeat' split
   all_goals grind [ElsifOut.ps]
 
+theorem parsePlainBlock_inv {P} {pb : ParseBlockFn σ} (hpb : PBInv P pb) (endName) (ts : List (Tok σ)) (ps : PS)
+    (h0 : P ps.log) : P (parsePlainBlock pb endName ts ps).ps.log := by
+  unfold parsePlainBlock PBInv at *
+  repeat' split
+  all_goals grind
+
+theorem whenLoop_inv (c : Cfg σ) {P} {pb : ParseBlockFn σ} (hpb : PBInv P pb) (endName : String) :
+    ∀ (ts : List (Tok σ)) (skip : Nat) (ps : PS), P ps.log → P (whenLoop c pb endName skip ts ps).ps.log := by
+  intro ts
+  induction ts with
+  | nil => intro skip ps h0; simpa [whenLoop] using h0
+  | cons t rest ih =>
+    intro skip ps h0
+    cases skip with
+    | succ k =>
+      have := ih k ps h0
+      simp only [whenLoop]
+      repeat' split
+      all_goals grind
+    | zero =>
+      simp only [whenLoop]
+      unfold PBInv at *
+      repeat' split
+      all_goals grind
+
+theorem parseCase_inv (c : Cfg σ) {P} {pb : ParseBlockFn σ} (hpb : PBInv P pb) (endName)
+    (ts : List (Tok σ)) (ps : PS) (h0 : P ps.log) : P (parseCase c pb endName ts ps).ps.log := by
+  have hw := whenLoop_inv c hpb endName
+  unfold parseCase
+  dsimp only
+  repeat' split
+  all_goals grind
+
 theorem dispatch_inv (c : Cfg σ) {P} (hP : Stable c P) {pb : ParseBlockFn σ} (hpb : PBInv P pb) : GNInv P (dispatch c pb) := by
   intro ts ps n adv ps' h0 h
   unfold dispatch at h
@@ -168,6 +201,9 @@ theorem dispatch_inv (c : Cfg σ) {P} (hP : Stable c P) {pb : ParseBlockFn σ} (
     · exact getNode_inv c hP _ _ _ _ _ _ (parseBlockTag_inv c hpb _ _ _ _ _ h0) h
     · exact getNode_inv c hP _ _ _ _ _ _ (parseBlockTag_inv c hpb _ _ _ _ _ h0) h
     · exact getNode_inv c hP _ _ _ _ _ _ (parseCond_inv c hP hpb _ _ _ _ h0) h
+    · exact getNode_inv c hP _ _ _ _ _ _ (parseCase_inv c hpb _ _ _ h0) h
+    · exact getNode_inv c hP _ _ _ _ _ _ (parseBlockTag_inv c hpb _ _ _ _ _ h0) h
+    · exact getNode_inv c hP _ _ _ _ _ _ (parsePlainBlock_inv hpb _ _ _ h0) h
     · refine getNode_inv c hP _ _ _ _ _ _ ?_ h; unfold parseIllegal; repeat' split
       all_goals exact h0
   · refine getNode_inv c hP _ _ _ _ _ _ ?_ h; unfold parseContent; repeat' split
@@ -333,6 +369,46 @@ theorem parseCond_agree (c : Cfg σ) (m : Mode) {pbS pbM : ParseBlockFn σ} (hpb
   repeat' split at h
   all_goals grind
 
+theorem parsePlainBlock_agree {pbS pbM : ParseBlockFn σ} (hpb : PBAgree pbS pbM) (endName) (ts : List (Tok σ)) (ps : PS) (n)
+    (h : (parsePlainBlock pbS endName ts ps).res = .ok n) :
+    parsePlainBlock pbM endName ts ps = parsePlainBlock pbS endName ts ps := by
+  unfold parsePlainBlock PBAgree at *
+  repeat' split at h
+  all_goals grind
+
+theorem whenLoop_agree (c : Cfg σ) (m : Mode) {pbS pbM : ParseBlockFn σ} (hpb : PBAgree pbS pbM) (endName : String) :
+    ∀ (ts : List (Tok σ)) (skip : Nat) (ps : PS) x,
+      (whenLoop (c.withMode .strict) pbS endName skip ts ps).res = .ok x →
+      whenLoop (c.withMode m) pbM endName skip ts ps = whenLoop (c.withMode .strict) pbS endName skip ts ps := by
+  intro ts
+  induction ts with
+  | nil => intro skip ps x h; simp [whenLoop]
+  | cons t rest ih =>
+    intro skip ps x h
+    cases skip with
+    | succ k =>
+      simp only [whenLoop] at h ⊢
+      have := ih k ps
+      repeat' split at h
+      all_goals grind
+    | zero =>
+      have hi := intoInner_agree c m true rest
+      simp only [whenLoop] at h ⊢
+      unfold PBAgree at hpb
+      repeat' split at h
+      all_goals grind
+
+theorem parseCase_agree (c : Cfg σ) (m : Mode) {pbS pbM : ParseBlockFn σ} (hpb : PBAgree pbS pbM) (endName)
+    (ts : List (Tok σ)) (ps : PS) (n)
+    (h : (parseCase (c.withMode .strict) pbS endName ts ps).res = .ok n) :
+    parseCase (c.withMode m) pbM endName ts ps = parseCase (c.withMode .strict) pbS endName ts ps := by
+  have hi := intoInner_agree c m true (ts.drop 1)
+  have hw := whenLoop_agree c m hpb endName
+  unfold parseCase at *
+  dsimp only at h ⊢
+  repeat' split at h
+  all_goals grind
+
 theorem dispatch_agree (c : Cfg σ) (m : Mode) {pbS pbM : ParseBlockFn σ} (hpb : PBAgree pbS pbM) :
     GNAgree (dispatch (c.withMode .strict) pbS) (dispatch (c.withMode m) pbM) := by
   intro ts ps r h
@@ -348,6 +424,9 @@ theorem dispatch_agree (c : Cfg σ) (m : Mode) {pbS pbM : ParseBlockFn σ} (hpb 
     · exact getNode_agree c m _ _ _ _ _ (fun n hn => parseBlockTag_agree c m hpb _ _ _ _ _ n hn) h
     · exact getNode_agree c m _ _ _ _ _ (fun n hn => parseBlockTag_agree c m hpb _ _ _ _ _ n hn) h
     · exact getNode_agree c m _ _ _ _ _ (fun n hn => parseCond_agree c m hpb _ _ _ _ n hn) h
+    · exact getNode_agree c m _ _ _ _ _ (fun n hn => parseCase_agree c m hpb _ _ _ n hn) h
+    · exact getNode_agree c m _ _ _ _ _ (fun n hn => parseBlockTag_agree c m hpb _ _ _ _ _ n hn) h
+    · exact getNode_agree c m _ _ _ _ _ (fun n hn => parsePlainBlock_agree hpb _ _ _ n hn) h
     · exact getNode_agree c m _ _ _ _ _ (fun n hn => rfl) h
   · exact getNode_agree c m _ _ _ _ _ (fun n hn => rfl) h
 
@@ -401,9 +480,14 @@ theorem node_ind {P : Node σ → Prop} {Q : List (Node σ) → Prop}
     (condBlock : ∀ e body, Q body → P (.condBlock e body))
     (loop : ∀ e body dflt, Q body → Q dflt → P (.loop e body dflt))
     (capture : ∀ e body, Q body → P (.capture e body))
+    (case_ : ∀ e blocks, Q blocks → P (.case_ e blocks))
+    (whenBlock : ∀ e body, Q body → P (.whenBlock e body))
+    (elseBlock : ∀ body, Q body → P (.elseBlock body))
+    (scoped_ : ∀ e body, Q body → P (.scoped e body))
+    (block : ∀ body, Q body → P (.block body))
     (nil : Q []) (cons : ∀ n ns, P n → Q ns → Q (n :: ns)) : (∀ n, P n) ∧ (∀ ns, Q ns) :=
-  ⟨fun n => Node.rec (motive_1 := P) (motive_2 := Q) text eval illegal interrupt partial_ extends_ cond condBlock loop capture nil cons n,
-   fun ns => Node.rec_1 (motive_1 := P) (motive_2 := Q) text eval illegal interrupt partial_ extends_ cond condBlock loop capture nil cons ns⟩
+  ⟨fun n => Node.rec (motive_1 := P) (motive_2 := Q) text eval illegal interrupt partial_ extends_ cond condBlock loop capture case_ whenBlock elseBlock scoped_ block nil cons n,
+   fun ns => Node.rec_1 (motive_1 := P) (motive_2 := Q) text eval illegal interrupt partial_ extends_ cond condBlock loop capture case_ whenBlock elseBlock scoped_ block nil cons ns⟩
 
 /-! ### Pass 1: the top-level template loop never lets anything escape outside strict mode -/
 
@@ -443,9 +527,21 @@ theorem iterate_inv {P : Log → Prop} (body : RS σ → RS σ × Sig) (hb : ∀
     repeat' split
     all_goals grind
 
+theorem repeatN_inv {P : Log → Prop} (body : RS σ → RS σ × Sig) (hb : ∀ rs, P rs.log → P (body rs).1.log) :
+    ∀ n rs, P rs.log → P (repeatN body n rs).1.log := by
+  intro n
+  induction n with
+  | zero => intro rs h; simpa [repeatN] using h
+  | succ n ih =>
+    intro rs h
+    simp only [repeatN]
+    repeat' split
+    all_goals grind
+
 theorem renderNode_inv (c : Cfg σ) {P} (hP : Stable c P) {rt : RenderTemplateFn σ} (hrt : RTInv P rt) :
     (∀ n : Node σ, ∀ rs, P rs.log → P (renderNode c rt n rs).1.log) ∧
-    (∀ ns : List (Node σ), (∀ rs, P rs.log → P (renderList c rt ns rs).1.log) ∧ (∀ rs, P rs.log → P (renderAlts c rt ns rs).1.log)) := by
+    (∀ ns : List (Node σ), (∀ rs, P rs.log → P (renderList c rt ns rs).1.log) ∧ (∀ rs, P rs.log → P (renderAlts c rt ns rs).1.log) ∧
+      (∀ d rs, P rs.log → P (renderCase c rt ns d rs).1.log)) := by
   have hpt := fun ts log r => parseTemplate_inv c hP ts log r
   have hev := @evalExpr_log σ
   unfold RTInv at hrt
@@ -482,20 +578,41 @@ theorem renderNode_inv (c : Cfg σ) {P} (hP : Stable c P) {rt : RenderTemplateFn
     have := h1.1 { rs with out := "" } h
     repeat' split
     all_goals grind
-  case nil => exact ⟨fun rs h => by simpa [renderList] using h, fun rs h => by simpa [renderAlts] using h⟩
+  case case_ => intro e blocks h1 rs h; simp only [renderNode]; exact h1.2.2 true rs h
+  case whenBlock =>
+    intro e body h1 rs h; simp only [renderNode]
+    have hr := repeatN_inv (P := P) (renderList c rt body) h1.1
+    repeat' split
+    all_goals grind
+  case elseBlock => intro body h1 rs h; simp only [renderNode]; exact h1.1 rs h
+  case scoped_ =>
+    intro e body h1 rs h; simp only [renderNode]
+    repeat' split
+    all_goals grind
+  case block => intro body h1 rs h; simp only [renderNode]; exact h1.1 rs h
+  case nil => exact ⟨fun rs h => by simpa [renderList] using h, fun rs h => by simpa [renderAlts] using h,
+    fun d rs h => by simpa [renderCase] using h⟩
   case cons =>
     intro n ns hn hns
-    refine ⟨?_, ?_⟩
+    refine ⟨?_, ?_, ?_⟩
     · intro rs h; simp only [renderList]
       repeat' split
       all_goals grind
     · intro rs h
-      cases n <;> simp only [renderAlts] <;> (try exact hns.2 rs h)
+      cases n <;> simp only [renderAlts] <;> (try exact hns.2.1 rs h)
       rename_i e body
       have hb := hn
       simp only [renderNode] at hb
       repeat' split
       all_goals grind
+    · intro d rs h
+      cases n <;> simp only [renderCase] <;> (try exact hns.2.2 d rs h)
+      all_goals
+        have hb := hn
+        have hc := hns.2.2
+        simp only [renderNode] at hb
+        repeat' split
+        all_goals grind
 
 theorem templateLoop_inv (c : Cfg σ) {P} (hP : Stable c P) {rn : Node σ → RS σ → RS σ × Sig}
     (hrn : ∀ n rs, P rs.log → P (rn n rs).1.log) (p b : Bool) :
@@ -543,6 +660,22 @@ theorem iterate_agree (fS fM : RS σ → RS σ × Sig) (hf : ∀ rs, (fS rs).2.i
       rw [hf rs this, hs]
       cases s <;> simp_all [Sig.isErr]
 
+theorem repeatN_agree (fS fM : RS σ → RS σ × Sig) (hf : ∀ rs, (fS rs).2.isErr = false → fM rs = fS rs) :
+    ∀ n rs, (repeatN fS n rs).2.isErr = false → repeatN fM n rs = repeatN fS n rs := by
+  intro n
+  induction n with
+  | zero => intro rs _; simp [repeatN]
+  | succ n ih =>
+    intro rs h
+    simp only [repeatN] at h ⊢
+    cases hs : fS rs with
+    | mk rs' s =>
+      rw [hs] at h
+      have : (fS rs).2.isErr = false := by
+        cases s <;> simp_all [Sig.isErr]
+      rw [hf rs this, hs]
+      cases s <;> simp_all [Sig.isErr]
+
 theorem renderNode_agree (c : Cfg σ) (m : Mode) {rtS rtM : RenderTemplateFn σ} (hrt : RTAgree rtS rtM) :
     (∀ n : Node σ, ∀ rs, (renderNode (c.withMode .strict) rtS n rs).2.isErr = false →
         renderNode (c.withMode m) rtM n rs = renderNode (c.withMode .strict) rtS n rs) ∧
@@ -550,7 +683,9 @@ theorem renderNode_agree (c : Cfg σ) (m : Mode) {rtS rtM : RenderTemplateFn σ}
       (∀ rs, (renderList (c.withMode .strict) rtS ns rs).2.isErr = false →
         renderList (c.withMode m) rtM ns rs = renderList (c.withMode .strict) rtS ns rs) ∧
       (∀ rs, (∀ s, (renderAlts (c.withMode .strict) rtS ns rs).2 = some s → s.isErr = false) →
-        renderAlts (c.withMode m) rtM ns rs = renderAlts (c.withMode .strict) rtS ns rs)) := by
+        renderAlts (c.withMode m) rtM ns rs = renderAlts (c.withMode .strict) rtS ns rs) ∧
+      (∀ d rs, (renderCase (c.withMode .strict) rtS ns d rs).2.isErr = false →
+        renderCase (c.withMode m) rtM ns d rs = renderCase (c.withMode .strict) rtS ns d rs)) := by
   have hpt := fun ts log r => parseTemplate_agree c m ts log r
   unfold RTAgree at hrt
   apply node_ind
@@ -584,22 +719,42 @@ theorem renderNode_agree (c : Cfg σ) (m : Mode) {rtS rtM : RenderTemplateFn σ}
     have := h1.1 { rs with out := "" }
     repeat' split at h
     all_goals grind [Sig.isErr]
-  case nil => exact ⟨fun rs _ => by simp [renderList], fun rs _ => by simp [renderAlts]⟩
+  case case_ => intro e blocks h1 rs h; simp only [renderNode] at h ⊢; exact h1.2.2 true rs h
+  case whenBlock =>
+    intro e body h1 rs h; simp only [renderNode] at h ⊢
+    have hr := repeatN_agree (renderList (c.withMode .strict) rtS body) (renderList (c.withMode m) rtM body) h1.1
+    repeat' split at h
+    all_goals grind [Sig.isErr]
+  case elseBlock => intro body h1 rs h; simp only [renderNode] at h ⊢; exact h1.1 rs h
+  case scoped_ =>
+    intro e body h1 rs h; simp only [renderNode] at h ⊢
+    repeat' split at h
+    all_goals grind [Sig.isErr]
+  case block => intro body h1 rs h; simp only [renderNode] at h ⊢; exact h1.1 rs h
+  case nil => exact ⟨fun rs _ => by simp [renderList], fun rs _ => by simp [renderAlts], fun d rs _ => by simp [renderCase]⟩
   case cons =>
     intro n ns hn hns
-    refine ⟨?_, ?_⟩
+    refine ⟨?_, ?_, ?_⟩
     · intro rs h; simp only [renderList] at h ⊢
       repeat' split at h
       all_goals grind [Sig.isErr]
     · intro rs h
-      cases n <;> simp only [renderAlts] at h ⊢ <;> (try exact hns.2 rs h)
+      cases n <;> simp only [renderAlts] at h ⊢ <;> (try exact hns.2.1 rs h)
       rename_i e body
       have hb := hns.1
-      have ha := hns.2
+      have ha := hns.2.1
       have hn' := hn
       simp only [renderNode] at hn'
       repeat' split at h
       all_goals grind [Sig.isErr]
+    · intro d rs h
+      cases n <;> simp only [renderCase] at h ⊢ <;> (try exact hns.2.2 d rs h)
+      all_goals
+        have hc := hns.2.2
+        have hn' := hn
+        simp only [renderNode] at hn'
+        repeat' split at h
+        all_goals grind [Sig.isErr]
 
 theorem templateLoop_agree (c : Cfg σ) (m : Mode) {rnS rnM : Node σ → RS σ → RS σ × Sig}
     (hrn : ∀ n rs, (rnS n rs).2.isErr = false → rnM n rs = rnS n rs) (p b : Bool) :
